@@ -3,6 +3,7 @@ package main
 import (
 	"fmt"
 	"go/token"
+	"strings"
 
 	"golang.org/x/tools/go/ssa"
 )
@@ -60,6 +61,30 @@ func c11ArchiveLastWins(c *Ctx) {
 				c.Ob(rule, fmt.Sprintf("storagearchive.%s/write#%d", name, k), call.Pos(), len(seenSets) == 0, true, "the entry is written whatever was written before it (membership tests in a local map guarding the write: %v)", uniq(seenSets))
 			}
 		}
+	}
+	// entries are written one after the other: two members that map onto one path (strip_components, normalisation)
+	// must not be written at the same time - the result would be neither of them - and the later one has to win
+	for _, name := range []string{"Untar", "Unzip"} {
+		fr := p.Func("private/pkg/storage/storagearchive", name)
+		if fr == nil || fr.Obj == nil {
+			continue
+		}
+		var conc []string
+		for _, f := range archiveReaderFuncs(p.SSAFunc(fr.Obj)) {
+			for _, b := range f.Blocks {
+				for _, ins := range b.Instrs {
+					if _, isGo := ins.(*ssa.Go); isGo {
+						conc = append(conc, "go statement in "+f.Name())
+					}
+				}
+			}
+			for _, call := range callsIn(f) {
+				if o := staticCalleeObj(call.Call); o != nil && o.Pkg() != nil && (strings.HasSuffix(o.Pkg().Path(), "/private/pkg/thread") || o.Pkg().Path() == "golang.org/x/sync/errgroup") {
+					conc = append(conc, o.Pkg().Name()+"."+o.Name()+" in "+f.Name())
+				}
+			}
+		}
+		c.Ob(rule, "storagearchive."+name+"/sequential", fr.Decl.Pos(), len(conc) == 0, true, "entries are extracted one after the other (concurrency found: %v)", uniq(conc))
 	}
 	if n == 0 {
 		c.Fail(rule, "anchor", token.NoPos, "no entry-writing call found in Untar/Unzip")
